@@ -677,7 +677,8 @@ def _initialize_metric_mahalanobis(input, init='identity', random_state=None,
   if isinstance(init, np.ndarray):
     # we copy the array, so that if we update the metric, we don't want to
     # update the init
-    init = check_array(init, copy=True)
+    # (a float copy: the solvers update this matrix in place)
+    init = check_array(init, copy=True, dtype=float)
 
     # Assert that init.shape[1] = n_features
     if init.shape != (n_features,) * 2:
